@@ -21,6 +21,9 @@ type c18Get struct {
 type c18Case struct {
 	Rt        string     `json:"rt"`   // restorenext | next | slowinit (still initialising when the restore comes) | busy (working on an invocation when it comes)
 	BusyMs    int        `json:"busyMs,omitempty"`
+	// CustEnv: the function's own configuration names the credential variables (token | uri | both): the runtime must
+	// still find the per-instance token and this instance's endpoint in its environment
+	CustEnv string `json:"custEnv,omitempty"`
 	Hook      string     `json:"hook"` // ok | rerr | initerr | stall | exit
 	HookMs    int        `json:"hookMs"`
 	TimeoutMs int        `json:"timeoutMs"`
@@ -33,6 +36,15 @@ type c18Case struct {
 func (c *c18Case) scenario() *Scenario {
 	sc := &Scenario{Config: Config{TimeoutMs: 8000, TimeoutEnvS: 8, InitCaching: true, Init: InitParams{AwsKey: c.Creds[0][0], AwsSecret: c.Creds[0][1], AwsSession: c.Creds[0][2]}},
 		Actors: map[string][]Script{}, BudgetS: 30, NoWaitAsync: true}
+	if c.CustEnv != "" {
+		sc.Config.Init.CustomerEnv = map[string]string{"PLAIN": "x=y"}
+		if c.CustEnv == "token" || c.CustEnv == "both" {
+			sc.Config.Init.CustomerEnv["AWS_CONTAINER_AUTHORIZATION_TOKEN"] = "0f0e0d0c-aaaa-4bbb-8ccc-ddddeeeeffff"
+		}
+		if c.CustEnv == "uri" || c.CustEnv == "both" {
+			sc.Config.Init.CustomerEnv["AWS_CONTAINER_CREDENTIALS_FULL_URI"] = "http://169.254.170.2/v2/credentials"
+		}
+	}
 	var rt []Step
 	if c.Rt == "next" {
 		rt = []Step{{Op: "rt.loop"}}
@@ -120,6 +132,9 @@ func c18Check(c c18Case) (out kit.Outcome) {
 	out.Artifacts = run.diag()
 	out.Sample = c
 	out.Label("rt:" + c.Rt)
+	if c.CustEnv != "" {
+		out.Label("customer-names-credential-variables:" + c.CustEnv)
+	}
 	if c.Rt == "restorenext" {
 		out.Label("hook:" + c.Hook)
 	}
@@ -343,6 +358,7 @@ func c18Gen(t *rapid.T) c18Case {
 	if c.HookMs < 0 {
 		c.HookMs = 0
 	}
+	c.CustEnv = rapid.SampledFrom([]string{"", "", "", "token", "uri", "both"}).Draw(t, "custEnv")
 	c.ErrType = rapid.OneOf(
 		rapid.SampledFrom([]string{"Runtime.HookBoom", "Function.Custom", "junk", "Function.junk 1", "Runtime.AA0", "", " Runtime.Ab", "Runtime.Ab\tx"}),
 		// a valid type with one character that is not a letter put into it (what a header can carry)
@@ -374,6 +390,7 @@ func c18Fixed() []c18Case {
 	out = append(out, c18Case{Rt: "restorenext", Hook: "ok", HookMs: 260, TimeoutMs: 100, Creds: cr},
 		c18Case{Rt: "next", Hook: "ok", TimeoutMs: 100, Creds: cr, Second: true, Gets: g},
 		c18Case{Rt: "slowinit", BusyMs: 1300, Hook: "ok", TimeoutMs: 300, Creds: cr, Gets: g},
+		c18Case{Rt: "restorenext", Hook: "ok", HookMs: 20, TimeoutMs: 300, Creds: cr, Second: true, Gets: g, CustEnv: "both"},
 		c18Case{Rt: "busy", BusyMs: 1300, Hook: "ok", TimeoutMs: 100, Creds: cr, Second: true, Gets: g},
 		c18Case{Rt: "restorenext", Hook: "rerr", HookMs: 10, TimeoutMs: 300, ErrType: "xRuntime.Ab junk", Creds: cr},
 		c18Case{Rt: "restorenext", Hook: "rerr", HookMs: 10, TimeoutMs: 300, ErrType: "Runtime.Hook_Failed", Creds: cr},
